@@ -135,6 +135,13 @@ def work(job):
                 lang = rng.choice([0, 0, 0, 1, 2, 3, 4, 5, 6])
                 fname = rng.choice(TEXT + TEXT + PACK)
                 fmt = D.FMT[fname]
+                # a local image next to the source: the directory argument of to_data/to_file and the folder of the CLI's input file name the same place,
+                # so the packaged results must carry the same asset (the CLI reading standard input has no folder and is left out of that comparison)
+                asset = fname in ('epub', 'odt', 'bundlezip', 'textbundle') and rng.random() < 0.4
+                if asset:
+                    an = 'pic_%d.png' % i
+                    open(os.path.join(tdir, an), 'wb').write(b'\x89PNG\r\n\x1a\n' + bytes(rng.randrange(256) for _ in range(rng.randint(8, 200))))
+                    src = src.rstrip(b'\n') + b'\n\n![pic](' + an.encode() + b')\n\nlast w%d\n' % i
                 results = {}
                 hist = []
                 for fam in range(3):
@@ -146,8 +153,8 @@ def work(job):
                             shutil.rmtree(path)
                         elif os.path.exists(path):
                             os.unlink(path)
-                        args = [src, tdir, path] if var == 2 else [src]
-                        flags = fam | (var << 4) | ((1 << 8) if var == 2 else 0)
+                        args = [src, tdir, path] if var == 2 else ([src, tdir] if asset else [src])
+                        flags = fam | (var << 4) | ((1 << 8) if var == 2 or asset else 0)
                         hist.append(D.req_to_json('asan', 'CONVERT', fmt, ext, lang, flags, args))
                         rep = s.call('asan', 'CONVERT', fmt, ext, lang, flags, args, crash_is_violation=False)
                         r.evaluations += 1
@@ -166,12 +173,12 @@ def work(job):
                         else:
                             results[name] = rep.out
                 # CLI (1 case in 3)
-                if i % 3 == 0:
+                if i % 3 == 0 or asset:
                     inp = os.path.join(tdir, 'in_%d.txt' % i)
                     open(inp, 'wb').write(src)
                     fl = cli_flags(ext, lang) + ['-t', CLI_FMT[fname]]
                     rc, out, err = run_cli(cli, fl, stdin=src)
-                    results['cli_stdin'] = out if rc == 0 else None
+                    results['cli_stdin'] = out if rc == 0 and not asset else None
                     rc, out, err = run_cli(cli, fl + ['--notransclude', inp])
                     results['cli_file'] = out if rc == 0 else None
                     o = os.path.join(tdir, 'cli_o')
@@ -180,7 +187,9 @@ def work(job):
                     rc, out, err = run_cli(cli, fl + ['--notransclude', '-b', inp])
                     b = os.path.join(tdir, 'in_%d' % i + BATCH_EXT[fname])
                     results['cli_-b'] = read_result(b, fname) if rc == 0 and os.path.exists(b) else ('MISSING' if rc == 0 else None)
-                    for p in (inp, o, b):
+                    if asset:
+                        r.stats['cli_with_local_asset'] += 1
+                    for p in (inp, o, b) + ((os.path.join(tdir, an),) if asset else ()):
                         if os.path.isdir(p):
                             shutil.rmtree(p)
                         elif os.path.exists(p):
